@@ -124,7 +124,7 @@ func gen(t *rapid.T) editCase {
 	case c.Spec.Aligned():
 		opPool = []string{"append-cols", "append-cols", "append-each", "append-each", "delete", "add", "truncate", "clone", "scribble", "set"}
 	case c.Spec.IsMulti():
-		opPool = []string{"append-cols", "append-each", "append-each", "delete", "add", "flush", "flush", "truncate", "subseq", "clone", "scribble", "set"}
+		opPool = []string{"append-cols", "append-each", "append-each", "delete", "add", "flush", "flush", "truncate", "subseq", "clone", "scribble", "set", "set-offset"}
 	default:
 		opPool = []string{"append-each", "append-each", "scribble", "set", "clone"}
 	}
@@ -325,6 +325,18 @@ func check(c editCase) *vlib.Failure {
 				m.Rows = append(m.Rows, row)
 			} else {
 				m.Rows = append(m.Rows, nr)
+			}
+		case "set-offset":
+			// Multi.SetOffset moves the whole alignment: every row shifts by the same amount and
+			// keeps its letters
+			if !c.Spec.IsMulti() || nrows == 0 {
+				continue
+			}
+			to := o.A - 12
+			delta := to - s.obj.Multi.Offset
+			s.obj.Multi.SetOffset(to)
+			for i := range m.Rows {
+				m.Rows[i].Offset += delta
 			}
 		case "flush":
 			if !c.Spec.IsMulti() || nrows == 0 {
